@@ -30,7 +30,7 @@ PROPS = {"C09": "verifsim.c09", "C08": "verifsim.c08", "C16": "verifsim.c16"}
 # runs per tier (fixed numbers: one VERIF_SEED is one repeatable batch) and
 # the wall-clock safety cap after which no further chunk is started
 BUDGET = {
-    "C09": {"quick": (20000, 200), "thorough": (600000, 2400)},
+    "C09": {"quick": (16000, 200), "thorough": (600000, 2400)},
     "C08": {"quick": (100000, 200), "thorough": (2500000, 2400)},
     "C16": {"quick": (40000, 200), "thorough": (900000, 2400)},
 }
